@@ -4,7 +4,8 @@ import json, os
 
 COMMON_NOTE = ("Held-on-what-was-observed only: the oracle saw the executions listed in the evidence file, nothing more. "
                "Trusted base: Go runtime/compiler, crypto/sha256, crypto/sha512, crypto/hmac, x/crypto/ripemd160, math/big, math/bits, "
-               "the harness's reference implementations (self-tested against published vectors at the start of every run).")
+               "the harness's reference implementations (self-tested against published vectors at the start of every run). "
+               "Streams named *-386 run the same monitors in the GOARCH=386 build of driver and library (32-bit int).")
 
 # id -> (technique, level text, level note extra, design section)
 CHECKS = {
@@ -21,7 +22,7 @@ CHECKS = {
          "The space of substitution patterns (about 1e14 per length) collapses through GF(2)-affinity of the remainder function, which the monitor validates at run time on the implementation itself, to a syndrome space that is enumerated completely (every pattern of weight <=5 on a 112-symbol window, which contains all eight standard lengths; bech32: weight <=4 on 88 symbols). "
          "The acceptance comparison, which the hook does not see, is exercised black-box with exhaustive weight-1/2 substitutions, seeded heavier ones and patterns chosen to pass weakened comparisons.",
          "Affinity of the remainder function is validated by sampling, not proven; every candidate the enumeration finds is re-decided by the real decoder before it is reported.", "3 C03"),
- "C04": ("reference-model monitor: independent BIP32 (own secp256k1 on math/big, HMAC-SHA512) compared after every derivation step; error-clause monitor",
+ "C04": ("reference-model monitor: independent BIP32 (own secp256k1 on math/big, HMAC-SHA512) compared after every derivation step (paths, derivation trees with re-read and neutered keys, precomputed derivations whose IL has an all-zero/all-one 32-bit limb); error-clause monitor",
          "Each derivation step of seeded and directed paths (all seed lengths 16..64, boundary indices, chains to depth 255, all nets) is compared field by field with an independent BIP32 implementation that is self-tested on the BIP's vectors; the rare leading-zero-scalar class that hid the historic bug is counted and the clause is inconclusive if too few were seen.",
          "ErrInvalidChild / ErrUnusableSeed (probability 2^-127) cannot be reached by any constructible input.", "3 C04"),
  "C05": ("accept-iff-reference monitor: strict reference extended-key validator vs NewKeyFromString over single-bit/byte corruptions and recomputed-checksum families; round-trip monitor over derived keys",
@@ -42,13 +43,13 @@ CHECKS = {
  "C10": ("exact per-transaction model of MatchTxAndUpdate (result and filter bytes) + block-level sandwich oracle E <= reported <= matches(final filter) over permutations of generated spend graphs; three scanner APIs compared; event monitor on hooked insertions (bloom.VerifSetAddHook): every item a scan inserts is an outpoint the flag prescribes, and every in-block spender of an inserted outpoint is reported",
          "The per-transaction oracle is bit exact (bloom false positives are reproduced, not excluded); the block-level oracle is sound under any false-positive rate because the lower bound uses exact sets and the upper bound the final real filter; the insertion-event monitor covers relevance that arises through bloom false positives during the scan. txscript.PushedData / GetScriptClass define 'data push' and script class.",
          "", "3 C10"),
- "C11": ("reference-model monitor: independent BIP37 partial-merkle-tree builder and extractor vs both proof builders and the decoder; all 2^n subsets for n<=12",
+ "C11": ("reference-model monitor: independent BIP37 partial-merkle-tree builder and extractor vs both proof builders and the decoder; all 2^n subsets for n<=12; sibling ids constructed to agree in 32 or 64 bits",
          "For n<=12 every subset is enumerated; every n<=65 with structured subsets; seeded n up to 3000; filter-induced subsets must give identical messages from both builders.",
          "", "3 C11"),
  "C12": ("accept-iff-reference monitor: independent extractor with exactly the statement's rejection rules vs ExtractMatches over a small-scope enumeration and mutations of honest proofs",
          "Small scopes (count, hash list over a 3-hash alphabet, all flag strings up to 2 bytes) are enumerated by index arithmetic; honest proofs are mutated in every way the statement lists (incl. CVE-2012-2459).",
          "", "3 C12"),
- "C13": ("differential monitor of the four query strategies against each other and against membership, with hostile queries constructed from an independent SipHash/GCS value reference (low-32-bit collisions, neighbours, boundaries)",
+ "C13": ("differential monitor of the four query strategies against each other and against membership, with hostile queries constructed from an independent SipHash/GCS value reference (low-32-bit collisions, neighbours, boundaries, clustered members, digest-colliding filter pairs, 140000-call histories)",
          "Agreement needs no reference (the right-hand side is the real single-item query); the reference is used to construct queries that collide with members in 32 bits once N*M >= 2^32, which random queries would not find.",
          "", "3 C13"),
  "C14": ("reference-model monitor: independent SipHash-2-4 + Golomb-Rice encoder vs filter bytes; serialisation round trips; hook-observed fastReduction vs math/bits.Mul64; reference block-filter entry set",
@@ -60,11 +61,11 @@ CHECKS = {
  "C16": ("history + model monitor: accessor call sequences on blocks/txs from four constructors vs fresh computation from the wire message (own sha256d), pointer identity, index and range clauses",
          "Seeded blocks (0..256 txs, with token data) x four constructors x seeded accessor histories with hostile indices; every result is recomputed independently; only blocks that wire alone round-trips are in the domain.",
          "", "3 C16"),
- "C17": ("exact-arithmetic oracle (math/big) for rounding, symmetry, monotonicity, round trip, unit conversion and decimal text over directed boundary values and stratified random samples",
+ "C17": ("exact-arithmetic oracle (math/big) for rounding, symmetry, monotonicity, round trip, unit conversion and decimal text over directed boundary values and stratified random samples, on amd64 and in the GOARCH=386 build; concurrent first use in fresh processes under the race detector",
          "The floating-point clauses are decided exactly with big.Float/big.Rat; directed values sit on every rounding boundary (k+0.5 neighbours, 2^52..2^53, powers of two and ten, the cap).",
          "Exhaustive coverage of 2.1e15 amounts is out of reach; the check is directed + stratified sampling.", "3 C17"),
  "C18": ("reference BIP69 comparators + permutation/multiset monitor, exhaustive over all sequences of <=6 inputs / <=4 outputs on small key alphabets with ties; seeded up to 300",
-         "The small-scope stream enumerates every ordering incl. ties in hash, index, amount and script-prefix relations; order among key-equal elements is not asserted.",
+         "The small-scope stream enumerates every ordering incl. ties in hash, index, amount and script-prefix relations; order among key-equal elements is not asserted against the reference, but Sort and InPlaceSort must serialise identically.",
          "", "3 C18"),
  "C19": ("clause-by-clause oracle over every successful selection (exhaustive small scope + seeded lists) and a model-based history checker for CoinSet totals",
          "All lists of <=3 coins over small value/confirmation alphabets with all parameter combinations are enumerated; seeded lists up to 12 coins; every tie order the unstable sort may produce is accepted.",
